@@ -22,15 +22,16 @@ AddMixed == /\ Channel /\ corr = NoCorr /\ Len(es) < MaxLen
 Extend == /\ corr.c = "dimmix" /\ Len(es) < MaxLen
           /\ \E e \in Entries : es' = Append(es, e) /\ corr' = corr
 Corrupt == /\ corr = NoCorr /\ es # <<>>
-           /\ \E c \in {"lead", "dbl", "foreign", "wsafter", "nosep", "third"}, at \in 1..Len(es) :
+           /\ \E c \in {"lead", "dbl", "foreign", "wsafter", "nosep", "third", "trail"}, at \in 1..Len(es) :
                  /\ Applicable(es, [c |-> c, at |-> at], Channel)
+                 /\ (c = "trail" => at = 1)                       \* position-free: one instance per list
                  /\ corr' = [c |-> c, at |-> at] /\ es' = es
 Next == AddEntry \/ AddMixed \/ Extend \/ Corrupt
 Spec == Init /\ [][Next]_vars
 
 Emit == IF es = <<>> THEN TRUE
         ELSE PrintT(ToJson([channel |-> Channel, text |-> Render(es, corr), entries |-> es,
-                            corr |-> corr.c, win |-> ErrWindow(es, corr)]))
+                            corr |-> corr.c, win |-> ErrWindow(es, corr), either |-> corr.c = "trail"]))
 
 (* design-level sanity: a corruption really changes the text, and the window is consistent *)
 Sane == /\ (corr.c \notin {"none", "dimmix"} => Render(es, corr) # Render(es, NoCorr))
